@@ -250,6 +250,18 @@ func genC17(r *vc.Run) {
 				a := []val.V{val.A(cn), val.I(xy[0]), val.I(xy[1])}
 				o := r.Case("new_ec_point/"+name, true, "new_ec_point", a...)
 				accept("new_ec_point", a, o, xy[0], xy[1], cn)
+				// the doors inside messages (proof commitments, announced public keys): wire bytes are non-negative numbers
+				if xy[0].Sign() >= 0 && xy[1].Sign() >= 0 && (pi < 2 || r.Thorough()) {
+					doors := []string{"ecdsa-sign-r4", "ecdsa-sign-r6", "ecdsa-sign-r6v", "ecdsa-reshare-pub"}
+					if cn == "ed25519" {
+						doors = []string{"eddsa-keygen-r2", "eddsa-sign-r2", "eddsa-reshare-pub"}
+					}
+					for _, door := range doors {
+						da := []val.V{val.A(door), val.A(cn), val.I(xy[0]), val.I(xy[1])}
+						do := r.Case("message-door/"+door+"/"+name, true, "msg_point_door", da...)
+						accept("msg_point_door", da, do, xy[0], xy[1], cn)
+					}
+				}
 				// the other curve must refuse this curve's points
 				a2 := []val.V{val.A(other), val.I(xy[0]), val.I(xy[1])}
 				o2 := r.Case("new_ec_point/other-curve", true, "new_ec_point", a2...)
